@@ -89,6 +89,11 @@ fn run_history(set: usize, hist: &[usize]) -> Res {
     let mut sig = Vec::new();
     let mut gen = 0u8;
     for (k, ch) in hist.iter().enumerate() {
+        if *ch >= 4 {
+            // the reused writer is manipulated directly from here on: the cross-check oracles must not
+            // judge its dumps against the options it was created with
+            crate::checks::universal::forget_writer();
+        }
         match *ch {
             1 => {
                 b.p.add_thread(Kind::Block);
